@@ -189,7 +189,7 @@ func sceneBindingMsg(op int, o BindOpts) {
 	if present {
 		preDep = pre.Deposit
 	}
-	chk("C03", depAcc1.Sub(depAcc).Equal(newDep.Sub(preDep)), "deposit-account-follows-the-recorded-deposit")
+	chk("C03 C20 C04", depAcc1.Sub(depAcc).Equal(newDep.Sub(preDep)), "deposit-account-follows-the-recorded-deposit")
 	// identity and indexes (D)
 	chk("C15", vf.All(post.ServiceName == Svc, post.Provider.Equals(prov), post.Owner.Equals(owner) || !present && !owned), "binding-identity")
 	own, hasOwn := k.GetOwner(ctx, prov)
